@@ -154,7 +154,12 @@ Section LocateMethods.
   Qed.
 
   (* the fallback (NumPy arrays) — a duplicate-free span and a label that is not a tuple *)
-  (* since fix 35fe7e2 the comparison is element-wise for every label (a tuple label is ONE label): no condition on the label *)
+  (* since fix 35fe7e2 the comparison is element-wise for every label (a tuple label is ONE label): no condition on the label.
+     It runs on the OBJECT CAST of the span: the lookup meets the spec for spans whose elements the cast leaves alone (obj_stable:
+     everything but the elements of a datetime64[ns] array, which become Python ints) *)
+  Definition obj_stable (ls : list label) : Prop := Forall (fun y => obj_cast y = y) ls.
+  Lemma arr_eq_stable ls x : obj_stable ls -> arr_eq ls x = map (fun y => label_eqb y x) ls.
+  Proof. unfold arr_eq. induction 1 as [|y r Hy _ IH]; simpl; [reflexivity|]. rewrite Hy, IH. reflexivity. Qed.
   Lemma true_positions_nodup k x ls :
     NoDup ls ->
     true_positions k (map (fun y => label_eqb y x) ls) = match pos x ls with Some p => [k + Z.of_nat p] | None => [] end.
@@ -165,13 +170,13 @@ Section LocateMethods.
     - rewrite IH. destruct (pos x r); simpl; [f_equal; lia | reflexivity].
   Qed.
   Lemma locate_arr_spec ls x :
-    NoDup ls ->
+    NoDup ls -> obj_stable ls ->
     match pos x ls with
     | Some p => locate g (SArr ls) x = Ret (LPos (Z.of_nat p) true)
     | None => locate g (SArr ls) x = Raise KeyError
     end.
   Proof.
-    intros ND. rewrite locate_SArr. unfold fallback, arr_eq.
+    intros ND Hst. rewrite locate_SArr. unfold fallback. rewrite (arr_eq_stable ls x Hst).
     rewrite (true_positions_nodup 0 x ls ND). destruct (pos x ls); reflexivity.
   Qed.
 
@@ -182,12 +187,23 @@ Section LocateMethods.
     unfold cnt. revert k; induction ls as [|y r IH]; intros k; simpl; [reflexivity|].
     destruct (label_eqb y x); simpl; rewrite IH; reflexivity.
   Qed.
-  Lemma locate_arr_not_unique ls x : cnt x ls <> 1%nat -> locate g (SArr ls) x = Raise KeyError.
+  Lemma locate_arr_not_unique ls x : obj_stable ls -> cnt x ls <> 1%nat -> locate g (SArr ls) x = Raise KeyError.
   Proof.
-    intros H. rewrite locate_SArr. unfold fallback, arr_eq.
+    intros Hst H. rewrite locate_SArr. unfold fallback. rewrite (arr_eq_stable ls x Hst).
     pose proof (true_positions_length 0 x ls) as L.
     destruct (true_positions 0 (map (fun y => label_eqb y x) ls)) as [|i [|j r]]; simpl in *; try reflexivity.
     congruence.
+  Qed.
+  (* the kept finding: a datetime64[ns] label (LTs) is NEVER found in a NumPy-array span — not even when it is an element — because
+     the object cast of the span holds ints *)
+  Lemma obj_cast_not_ts y ns : label_eqb (obj_cast y) (LTs ns) = false.
+  Proof. destruct y; reflexivity. Qed.
+  Lemma locate_arr_ns_label ls ns : locate g (SArr ls) (LTs ns) = Raise KeyError.
+  Proof.
+    rewrite locate_SArr. unfold fallback, arr_eq.
+    assert (E : forall k, true_positions k (map (fun y => label_eqb (obj_cast y) (LTs ns)) ls) = []).
+    { induction ls as [|y r IH]; intros k; simpl; [reflexivity|]. rewrite obj_cast_not_ts. apply IH. }
+    rewrite E. reflexivity.
   Qed.
 
   (* pandas: whatever get_loc raises becomes KeyError; positions are passed through *)
@@ -199,7 +215,7 @@ Section LocateMethods.
     match sp with
     | SList _ => True
     | SRange _ s _ => s <> 0
-    | SArr ls => NoDup ls
+    | SArr ls => NoDup ls /\ obj_stable ls
     | SPandas ls => locate_spec ls (fun x => to_KeyError (g ls x))
     end.
   (* every span type at once: with span_ok the container's own lookup meets locate_spec for ALL labels *)
@@ -208,7 +224,7 @@ Section LocateMethods.
     destruct sp as [ls|a s n|ls|ls]; simpl; intros Hs x.
     - exact (locate_list_spec ls x).
     - exact (locate_range_spec a s n Hs x).
-    - pose proof (locate_arr_spec ls x Hs) as H. destruct (pos x ls); [exists true|]; exact H.
+    - destruct Hs as [ND Hst]. pose proof (locate_arr_spec ls x ND Hst) as H. destruct (pos x ls); [exists true|]; exact H.
     - exact (locate_pandas_spec ls Hs x).
   Qed.
 End LocateMethods.
